@@ -92,39 +92,53 @@ def clearsHash (old new : FileState) : Bool :=
   | .unconfirmed => old = .built ∨ old = .outdated
   | _ => false
 
-/-- `UPDATE file SET state = ?[, hash = ?]`: CHECK (hash needed), `file_clear_hash`,
-`file_check_undeclared_detached_upd`, `step_file_check_ready_upd`. -/
+/-- Row-level effect of `UPDATE file SET state = ?[, hash = ?]`: the CHECK (a hash is needed for
+CONFIRMED/BUILT/OUTDATED), `file_clear_hash`, `file_check_undeclared_detached_upd`. -/
+def pickHash (newHash : Option (Option Nat)) (old : Option Nat) : Option Nat :=
+  match newHash with | some h => h | none => old
+
+def pickDeferred (deferred : Option Bool) (old : Bool) : Bool :=
+  match deferred with | some d => d | none => old
+
+def fileRowWrite (n : Node) (new : FileState) (newHash : Option (Option Nat)) : M Node :=
+  let h := pickHash newHash n.fhash
+  if (new = .confirmed ∨ new = .built ∨ new = .outdated) ∧ h.isNone then throw .integrity
+  else if new = .undeclared ∧ !n.detached then throw .integrity
+  else pure { n with fstate := new, fhash := if clearsHash n.fstate new then none else h }
+
+/-- `UPDATE file SET state = ?[, hash = ?]` on the row of `k`, plus `step_file_check_ready_upd`. -/
 def KState.writeFile (s : KState) (k : Key) (new : FileState) (newHash : Option (Option Nat)) : M KState := do
   match s.find? k with
   | none => pure s
   | some n =>
-    let h := match newHash with | some h => h | none => n.fhash
-    -- CHECK (state NOT IN (CONFIRMED, BUILT, OUTDATED) OR hash IS NOT NULL)
-    if (new = .confirmed ∨ new = .built ∨ new = .outdated) ∧ h.isNone then throw .integrity
-    let h := if clearsHash n.fstate new then none else h
-    if new = .undeclared ∧ !n.detached then throw .integrity
-    let s := s.modify k fun n => { n with fstate := new, fhash := h }
+    let n' ← fileRowWrite n new newHash
+    let s := s.modify k fun _ => n'
     pure (if n.fstate ≠ new then s.flagReadySinks k else s)
 
 def KState.setFileState (s : KState) (k : Key) (new : FileState) : M KState := s.writeFile k new none
 
 /-! ## step table -/
 
-/-- `UPDATE step SET state = ?` (and `deferred = ?` when given): the CHECK on `deferred`, then
-`step_flag_check_safe`, `step_reset_holding`, `step_clear_deferred`, `step_reset_defer_count`. -/
+/-- Row-level effect of `UPDATE step SET state = ?` (and `deferred = ?` when given): the CHECK
+on `deferred`, then `step_flag_check_safe`, `step_reset_holding`, `step_clear_deferred`,
+`step_reset_defer_count`. -/
+def stepRowWrite (n : Node) (new : StepState) (deferred : Option Bool) : M Node :=
+  let d : Bool := pickDeferred deferred n.deferred
+  if d = true ∧ new ≠ .pending then throw .integrity
+  else pure
+    { n with
+      sstate := new
+      deferred := if new = .succeeded ∨ new = .failed then false else d
+      checkSafe := true
+      holding := if new ≠ .running then 0 else n.holding
+      deferCount := if new = .succeeded then 0 else n.deferCount }
+
 def KState.writeStepState (s : KState) (k : Key) (new : StepState) (deferred : Option Bool) : M KState := do
   match s.find? k with
   | none => pure s
   | some n =>
-    let d : Bool := match deferred with | some d => d | none => n.deferred
-    if d = true ∧ new ≠ .pending then throw .integrity
-    pure <| s.modify k fun n =>
-      { n with
-        sstate := new
-        deferred := if new = .succeeded ∨ new = .failed then false else d
-        checkSafe := true
-        holding := if new ≠ .running then 0 else n.holding
-        deferCount := if new = .succeeded then 0 else n.deferCount }
+    let n' ← stepRowWrite n new deferred
+    pure (s.modify k fun _ => n')
 
 /-- `Step.set_state(state, deferred=False)` -/
 def KState.setStepState (s : KState) (k : Key) (new : StepState) (deferred : Bool := false) : M KState :=
